@@ -14,8 +14,7 @@
    ADD/MOD re-arm a ONESHOT entry and re-evaluate readiness. The model kernel reports no more than that (Linux reports
    more: see `spur`), which is the conservative side for a liveness claim; Deliver's spur input covers the extra reports.
 
-   Liveness is stated as bounded progress under an explicit fairness notion (`round`), not for an arbitrary fair scheduler.
-   Not covered: RegisterDialNow in ONESHOT mode (WakeOld.dialnow_oneshot_gap). *)
+   Liveness is stated as bounded progress under an explicit fairness notion (`round`), not for an arbitrary fair scheduler. *)
 From Coq Require Import List Arith Lia Bool.
 From WakeC Require Import WakeModel WakeInv WakeProofs WakeDrain WakeIdle WakeOld.
 Import ListNotations.
@@ -23,16 +22,15 @@ Import ListNotations.
 (* the coupling invariant holds in every reachable state: any interleaving of writes (before / after registration, from
    any callback or goroutine), registration, dial completion, peer reads, event deliveries (with or without the extra
    level reports of Linux), the poller's handling steps, ResetPollerEvent and close *)
-Theorem c04_inv_reachable md r0 l : Forall (covered md) l -> Inv md (run md r0 l).
+Theorem c04_inv_reachable md r0 l : Inv md (run md r0 l).
 Proof. exact (inv_reachable md r0 l). Qed.
 
 (* no lost wake-up: backlog, registered, the peer has made room, the poller holds nothing => a writability event is deliverable *)
 Theorem c04_no_lost_wakeup md r0 l :
-  Forall (covered md) l ->
   let s := run md r0 l in
   closed s = false -> reg s = true -> quiescent s -> 0 < q s -> 0 < room s ->
   deliverable_out md s false = true.
-Proof. intros H s. apply no_lost_wakeup. apply inv_reachable, H. Qed.
+Proof. intros s. apply no_lost_wakeup. apply inv_reachable. Qed.
 
 (* handling that event strictly shrinks the backlog, and what left the queue went to the kernel *)
 Theorem c04_progress md s :
@@ -44,26 +42,23 @@ Proof. exact (progress md s). Qed.
    addConn's registration when the writes were issued before it -, the peer makes some room, the poller handles what is
    deliverable; no application call) empty the queue, every queued byte has been handed to the kernel *)
 Theorem c04_drains md r0 l ks :
-  Forall (covered md) l ->
   let s := run md r0 l in
   closed s = false -> dial s = false -> q s <= length ks ->
   q (rounds md s ks) = 0 /\ sent (rounds md s ks) = sent s + q s /\ closed (rounds md s ks) = false.
-Proof. intros H s. apply drains. apply inv_reachable, H. Qed.
+Proof. intros s. apply drains. apply inv_reachable. Qed.
 
 (* the property's anchor: the write-interest flag agrees with the registered mask (where the mask can change) *)
 Theorem c04_flag_agrees md r0 l :
-  Forall (covered md) l ->
   let s := run md r0 l in
   closed s = false -> reg s = true -> md <> ET -> mout s = wadded s.
-Proof. intros H s. apply flag_agrees. apply inv_reachable, H. Qed.
+Proof. intros s. apply flag_agrees. apply inv_reachable. Qed.
 
 (* no EPOLLOUT busy loop: after the poller handled a writability event on an empty queue nothing is deliverable (D32) *)
 Theorem c04_no_idle_spin md r0 l :
-  Forall (covered md) l ->
   let s := run md r0 l in
   closed s = false -> dial s = false -> pw s = WNone -> q s = 0 -> deliverable_out md s false = true ->
   deliverable_out md (handle_out md s) false = false.
-Proof. intros H s. apply no_idle_spin. apply inv_reachable, H. Qed.
+Proof. intros s. apply no_idle_spin. apply inv_reachable. Qed.
 
 (* refutations of the unrepaired code: what the model catches *)
 Theorem d3_refuted : stalled LT (fold_left (step_d3 LT) [AppWrite 5; Register; PeerRead 1] (init 2)).
@@ -74,6 +69,9 @@ Proof. exact d19_witness. Qed.
 Theorem dial_callback_refuted :
   stalled LT (fold_left (step_d31 LT) [RegisterDial; Deliver false false; HandleOut; AppWrite 10; ConnDone; PeerRead 1] (init 2)).
 Proof. exact d31_witness. Qed.
+
+Theorem dialnow_oneshot_refuted : stalled ETOS (fold_left step_d38 d38_history (init 2)).
+Proof. exact d38_witness. Qed.
 
 (* non-vacuity: a write from the open handler (before the registration) of 10 bytes into a send buffer of 4, ONESHOT mode;
    the state is reachable, open, has a backlog of 6, and three fair rounds of 2 bytes of peer reading drain it *)
@@ -92,3 +90,4 @@ Print Assumptions c04_no_idle_spin.
 Print Assumptions d3_refuted.
 Print Assumptions d19_refuted.
 Print Assumptions dial_callback_refuted.
+Print Assumptions dialnow_oneshot_refuted.
